@@ -640,7 +640,61 @@ Proof.
   rewrite !bool_decide_eq_true_2 by reflexivity. reflexivity.
 Qed.
 
+(* ---------- what the scheduler reserves for a task, in every phase ---------- *)
+
+(* TaskInfo.Resreq (charged to the node ledger), TaskInfo.InitResreq (compared by
+   predicates) and upstream's effective request coincide for EVERY lifecycle
+   position of the pod: any phase, bound or not, being deleted or not. *)
+Theorem task_reservation_eq_upstream ippvs plr ippl dra m p :
+  pod_ok p ->
+  let up1 := add_scalar (new_resource (k8s_pod_requests plsup (opts_of ippvs plr ippl dra) p)) pods_name 1 in
+  task_resreq tracked plsup ippvs plr ippl dra m p = up1 /\
+  task_init_resreq tracked plsup ippvs plr ippl dra m p = up1 /\
+  task_best_effort tracked plsup ippvs plr ippl dra m p = is_empty 1 up1.
+Proof.
+  intros Hok up1. unfold task_best_effort, task_resreq, task_init_resreq.
+  rewrite (volcano_eq_upstream _ _ _ _ _ Hok). fold up1. repeat split.
+Qed.
+
+(* the reservation does not depend on the lifecycle position at all *)
+Lemma task_reservation_phase_independent ippvs plr ippl dra m m' p :
+  task_resreq tracked plsup ippvs plr ippl dra m p = task_resreq tracked plsup ippvs plr ippl dra m' p /\
+  task_init_resreq tracked plsup ippvs plr ippl dra m p = task_init_resreq tracked plsup ippvs plr ippl dra m' p.
+Proof. split; reflexivity. Qed.
+
+(* the executable law accepts the models' own outputs, for every phase *)
+Corollary law_reservation_accepts_models ippvs plr ippl dra m p :
+  pod_ok p ->
+  law_task_reservation (new_resource (k8s_pod_requests plsup (opts_of ippvs plr ippl dra) p))
+    (vc_pod_request tracked plsup ippvs plr ippl dra p)
+    (task_resreq tracked plsup ippvs plr ippl dra m p)
+    (task_init_resreq tracked plsup ippvs plr ippl dra m p)
+    (task_best_effort tracked plsup ippvs plr ippl dra m p) = true.
+Proof.
+  intros Hok. unfold law_task_reservation.
+  destruct (task_reservation_eq_upstream ippvs plr ippl dra m p Hok) as (-> & -> & ->).
+  rewrite (volcano_eq_upstream _ _ _ _ _ Hok).
+  rewrite eqb_reflx, andb_true_r.
+  unfold law_task_request, law_same_request, add_scalar. cbn [cpu mem sc].
+  rewrite !bool_decide_eq_true_2 by reflexivity. reflexivity.
+Qed.
+
 End Names.
+
+(* the reservation law is the relation of the theorem on all three vectors *)
+Lemma law_task_reservation_spec up vc rq irq be :
+  law_task_reservation up vc rq irq be = true <->
+  vc = add_scalar up pods_name 1 /\ rq = add_scalar up pods_name 1 /\ irq = add_scalar up pods_name 1 /\
+  be = is_empty 1 (add_scalar up pods_name 1).
+Proof.
+  unfold law_task_reservation, law_task_request.
+  rewrite !andb_true_iff, eqb_true_iff.
+  assert (forall x, law_same_request up x = true <-> x = add_scalar up pods_name 1) as H.
+  { intros x. unfold law_same_request, add_scalar. rewrite !andb_true_iff, !bool_decide_eq_true. split.
+    - intros [[Hc Hm] Hs]. apply res_eq; assumption.
+    - intros ->. repeat split. }
+  rewrite !H. tauto.
+Qed.
 
 (* the law is exactly the relation of the theorem *)
 Lemma law_same_request_spec up vc :
